@@ -350,6 +350,46 @@ def rule_wr(ctx):
     K.api_wiring(ctx, 'WR', only=('catch', 'filter'), floor=2)
 
 
+def rule_sb(ctx):
+    """SB: the end-of-stream summary of the catching stages names the caught types with `X.__name__` unless X is a
+    collection of types. A *tuple* of types is the collection form that `except` accepts, so every such type test must
+    cover tuple - otherwise iteration ends with an AttributeError instead of StopIteration once something was dropped.
+    Sibling sites (catch stage, prefetch with catch) must test for the same collection types."""
+    rep = ctx.report
+    sites = []
+    for cls in K.family(ctx):
+        for mname, mem in cls.members.items():
+            if not mem.is_function:
+                continue
+            for n in A.walk_local(mem.node):
+                if isinstance(n, ast.Call) and A.dotted(n.func) == 'isinstance' and len(n.args) == 2:
+                    subj = A.src(n.args[0])
+                    if 'exception' not in subj:
+                        continue
+                    holder = n
+                    for a in A.ancestors(n):
+                        if isinstance(a, (ast.IfExp, ast.If)):
+                            holder = a
+                            break
+                    if not any(isinstance(x, ast.Attribute) and x.attr == '__name__' for x in ast.walk(holder)):
+                        continue
+                    t = n.args[1]
+                    types = sorted(A.src(e) for e in (t.elts if isinstance(t, ast.Tuple) else [t]))
+                    sites.append((cls, mname, n, types))
+    for cls, mname, n, types in sites:
+        ok = 'tuple' in types
+        rep.ob('SB', K.key(cls, mname, 'type-names-of-a-tuple-selection'), ok, n,
+               '' if ok else 'the summary takes `.__name__` of the selection unless it is one of %s: a tuple of exception '
+               'types (the multi-type form `except` accepts) has no __name__, so the iteration ends with AttributeError '
+               'after the last example whenever something was dropped' % types)
+    kinds = {tuple(t) for _c, _m, _n, t in sites}
+    if sites:
+        rep.ob('SB', 'core::summary-sites-agree-on-collection-types', len(kinds) == 1, sites[0][2],
+               '' if len(kinds) == 1 else 'sibling summary sites test for different collection types: %s' % sorted(kinds),
+               nontrivial=False)
+    rep.floor('summary sites naming the caught types', len(sites), 2)
+
+
 def rule_st(ctx):
     """catch(E): the stage catches exactly E (an empty selection catches nothing)"""
     n = K.ctor_stores_exact(ctx, 'ST', only=('CatchExceptionDataset', 'FilterDataset', 'PrefetchDataset'))
@@ -359,6 +399,7 @@ def rule_st(ctx):
 def run(ctx):
     rule_wr(ctx)
     rule_st(ctx)
+    rule_sb(ctx)
     rule_t6(ctx)
     rule_catch(ctx)
     rule_fp(ctx)
